@@ -181,9 +181,11 @@ func (n *node) GetModuleByPrefix(
 	if !ok {
 		if !skipUnknown {
 			return nil, fmt.Errorf("unknown import %s", pfx)
-		} else {
-			return nil, nil
 		}
+		// Never imported: handled like the import of a module that is
+		// not there, named after the prefix (no caller expects a nil
+		// module without an error).
+		mname = pfx
 	}
 
 	r, ok := modules[mname]
